@@ -249,7 +249,7 @@ pub fn c03(args: Args) {
     let end = |_w: &World, _q: bool, _s: &[SchemaSnap], _a: &mut Acc| -> Vec<Finding> { Vec::new() };
     let nt = |w: &World| count_ops(w, "rename") > 0 && ((count_ops(w, "delete") > 0 && count_ops(w, "revive") > 0) || count_ops(w, "reindex") > 0 || w.dumps.iter().any(|d| d.entries.values().any(srv::is_conflict)));
     let hooks = Hooks { after_op: &after, at_end: &end, nontrivial: &nt, dyn_check: false, quiesce: false, verify_sig: Some("c03/server-verify") };
-    let n = args.tier.pick(48, 600);
+    let n = args.tier.pick(48, 320);
     run_histories_ext(&mut run, &args, 3, n, &prof, &hooks, Some(&Ext { after_op_async: &|w, rec| Box::pin(async move {
         if rec.op.target() != 0 { return Vec::new(); }
         lookups(w.qs(0), &w.dumps[0]).await
